@@ -122,7 +122,7 @@ E('selectlt', lambda s: etl.selectlt(s, 'f0', 10 ** 9), stream=0, group='selects
 E('selectle', lambda s: etl.selectle(s, 'f0', 10 ** 9), stream=0, group='selects')
 E('selectgt', lambda s: etl.selectgt(s, 'f0', -1), stream=0, group='selects')
 E('selectge', lambda s: etl.selectge(s, 'f0', -1), stream=0, group='selects')
-E('selectcontains', lambda s: etl.selectcontains(s, 'f1', 'v'), stream=0, group='selects')
+E('selectcontains', lambda s: etl.selectcontains(s, 'f1', 'v'), stream=0, group='selects', ragged=False)
 E('selectin', lambda s: etl.selectin(s, 'f2', ['0', '1', '2', 'x', 'y']), stream=0, group='selects')
 E('selectnotin', lambda s: etl.selectnotin(s, 'f0', [1]), stream=0, group='selects')
 E('selectis', lambda s: etl.selectis(s, 'f0', None, complement=True), stream=0, group='selects')
@@ -152,27 +152,27 @@ E('rowmap', lambda s: etl.rowmap(s, lambda r: [r[0], r[1]], ['a', 'b']), stream=
 E('rowmapmany', lambda s: etl.rowmapmany(s, lambda r: [[r[0], 1], [r[0], 2]], ['a', 'b']), stream=0, group='maps')
 E('rowgroupmap', lambda s: etl.rowgroupmap(s, 'f0', lambda k, rows: [(k, len(list(rows)))], header=['f0', 'n']), group='maps')
 # regex
-E('capture', lambda s: etl.capture(s, 'f1', '(.)(.*)', ['p', 'q']), stream=0, group='regex')
-E('capture-include', lambda s: etl.capture(s, 'f1', '(.)', ['p'], include_original=True), stream=0, group='regex')
-E('split', lambda s: etl.split(s, 'f1', 'v', ['p', 'q']), stream=0, group='regex')
-E('splitdown', lambda s: etl.splitdown(s, 'f1', 'v'), stream=0, group='regex')
+E('capture', lambda s: etl.capture(s, 'f1', '(.)(.*)', ['p', 'q']), stream=0, group='regex', ragged=False)
+E('capture-include', lambda s: etl.capture(s, 'f1', '(.)', ['p'], include_original=True), stream=0, group='regex', ragged=False)
+E('split', lambda s: etl.split(s, 'f1', 'v', ['p', 'q']), stream=0, group='regex', ragged=False)
+E('splitdown', lambda s: etl.splitdown(s, 'f1', 'v'), stream=0, group='regex', ragged=False)
 E('sub', lambda s: etl.sub(s, 'f1', 'v', 'w'), stream=0, group='regex')
-E('search', lambda s: etl.search(s, 'f1', 'v'), stream=0, group='regex')
+E('search', lambda s: etl.search(s, 'f1', 'v'), stream=0, group='regex', ragged=False)
 E('search-all', lambda s: etl.search(s, '.'), stream=0, group='regex')
-E('searchcomplement', lambda s: etl.searchcomplement(s, 'f1', 'zzz'), stream=0, group='regex')
+E('searchcomplement', lambda s: etl.searchcomplement(s, 'f1', 'zzz'), stream=0, group='regex', ragged=False)
 # unpacks
-E('unpack', lambda s: etl.unpack(etl.convert(s, 'f1', lambda v: (v, v + '!')), 'f1', ['p', 'q']), stream=0, group='unpacks')
-E('unpack-include', lambda s: etl.unpack(etl.convert(s, 'f1', lambda v: [v]), 'f1', ['p', 'q'], include_original=True, missing='M'), stream=0, group='unpacks')
-E('unpackdict-keys', lambda s: etl.unpackdict(etl.convert(s, 'f1', lambda v: {'p': v}), 'f1', keys=['p', 'q']), stream=0, group='unpacks')
-E('unpackdict', lambda s: etl.unpackdict(etl.convert(s, 'f1', lambda v: {'p': v}), 'f1'), group='unpacks', hdrdep=True)
+E('unpack', lambda s: etl.unpack(etl.convert(s, 'f1', lambda v: (v, v + '!')), 'f1', ['p', 'q']), stream=0, group='unpacks', ragged=False)
+E('unpack-include', lambda s: etl.unpack(etl.convert(s, 'f1', lambda v: [v]), 'f1', ['p', 'q'], include_original=True, missing='M'), stream=0, group='unpacks', ragged=False)
+E('unpackdict-keys', lambda s: etl.unpackdict(etl.convert(s, 'f1', lambda v: {'p': v}), 'f1', keys=['p', 'q']), stream=0, group='unpacks', ragged=False)
+E('unpackdict', lambda s: etl.unpackdict(etl.convert(s, 'f1', lambda v: {'p': v}), 'f1'), group='unpacks', hdrdep=True, ragged=False)
 # reshape
 E('melt', lambda s: etl.melt(s, 'f0'), stream=0, group='reshape')
-E('melt-variables', lambda s: etl.melt(s, key=['f0', 'f1'], variables=['f2'], variablefield='var', valuefield='val'), stream=0, group='reshape')
+E('melt-variables', lambda s: etl.melt(s, key=['f0', 'f1'], variables=['f2'], variablefield='var', valuefield='val'), stream=0, group='reshape', ragged=False)
 E('recast', lambda s: etl.recast(etl.melt(s, 'f0')), group='reshape', hdrdep=True)
 E('recast-variables', lambda s: etl.recast(etl.melt(s, 'f0'), variablefield='variable', valuefield='value', samplesize=3,
                                            reducers={'f1': list}, missing='M'), group='reshape', hdrdep=True)
-E('transpose', lambda s: etl.transpose(s), group='reshape', hdrdep=True)
-E('pivot', lambda s: etl.pivot(s, 'f0', 'f1', 'f2', list), group='reshape', hdrdep=True)
+E('transpose', lambda s: etl.transpose(s), group='reshape', hdrdep=True, ragged=False)
+E('pivot', lambda s: etl.pivot(s, 'f0', 'f1', 'f2', list), group='reshape', hdrdep=True, ragged=False)
 E('flatten', lambda s: etl.flatten(s), kind='items', stream=0, group='reshape')
 E('unflatten', lambda s: etl.unflatten(etl.flatten(s), 3), stream=0, group='reshape', lookahead=2)
 E('unflatten-field', lambda s: etl.unflatten(s, 'f1', 2), stream=0, group='reshape', lookahead=2)
@@ -205,12 +205,12 @@ E('fold', lambda s: etl.fold(s, 'f0', lambda a, b: a + b, value='f1'), group='re
 E('merge1', lambda s: etl.merge(s, [['f0', 'f1', 'f2'], [2, 'm', 'n']], key='f0'), group='reductions')
 # dedup
 E('duplicates', lambda s: etl.duplicates(s, 'f0'), group='dedup')
-E('duplicates-nokey', lambda s: etl.duplicates(s), group='dedup')
+E('duplicates-nokey', lambda s: etl.duplicates(s), group='dedup', ragged=False)
 E('unique', lambda s: etl.unique(s, 'f0'), group='dedup')
-E('unique-nokey', lambda s: etl.unique(s), group='dedup')
-E('distinct', lambda s: etl.distinct(s), group='dedup')
+E('unique-nokey', lambda s: etl.unique(s), group='dedup', ragged=False)
+E('distinct', lambda s: etl.distinct(s), group='dedup', ragged=False)
 E('distinct-key', lambda s: etl.distinct(s, 'f0'), group='dedup')
-E('distinct-count', lambda s: etl.distinct(s, count='n'), group='dedup')
+E('distinct-count', lambda s: etl.distinct(s, count='n'), group='dedup', ragged=False)
 E('distinct-buffered', lambda s: etl.distinct(s, 'f0', buffersize=2), group='dedup')
 E('conflicts', lambda s: etl.conflicts(s, 'f0'), group='dedup')
 E('isunique', lambda s: etl.isunique(s, 'f0'), kind='scalar', group='dedup')
